@@ -230,6 +230,31 @@ func execWire(c *ctx, in ev) []ev {
 	measure := c.arg == "measure"
 	m := gS(in, "m")
 	switch gS(in, "op") {
+	case "TagSweep":
+		// an honest request under EVERY other 16-bit type tag (an alias of the type is one value among 65535)
+		b := gB(in, "b")
+		off := gI(in, "off")
+		own := int(b[off])<<8 | int(b[off+1])
+		e := ev{"op": "TagSweep", "m": m, "own": own, "tried": 0, "accepted": 0, "first": -1}
+		e["panic"] = guard(func() {
+			for t := 0; t < 65536; t++ {
+				if t == own || (m == "batchreq" && (t == 1 || t == 2)) {
+					continue
+				}
+				buf := append([]byte{}, b...)
+				buf[off], buf[off+1] = byte(t>>8), byte(t)
+				ok, _, _, _, _ := decodeOnce(m, buf)
+				e["tried"] = e["tried"].(int) + 1
+				if ok {
+					e["accepted"] = e["accepted"].(int) + 1
+					if e["first"].(int) < 0 {
+						e["first"] = t
+					}
+				}
+			}
+		})
+		e["timeout"], e["alloc_kib"], e["ms"] = false, 0, 0
+		return []ev{e}
 	case "Dec":
 		b := gB(in, "b")
 		out := []ev{}
@@ -692,6 +717,17 @@ func genWire(c *ctx, emit func(ev)) {
 			dec(h.m, b, false)
 		}
 	}
+	// every honest request under every other type tag
+	for _, h := range hs {
+		switch h.m {
+		case "t1req", "t2req", "t3req", "t5req":
+			emit(ev{"op": "TagSweep", "m": h.m, "b": B(h.b), "off": 0})
+		case "batchreq":
+			if _, w := quicwire.ConsumeVarint(h.b); w > 0 && len(h.b) > w+2 {
+				emit(ev{"op": "TagSweep", "m": h.m, "b": B(h.b), "off": w})
+			}
+		}
+	}
 	// every honest message against every other decoder (types apart)
 	for _, h := range hs {
 		for _, m := range wireMsgs {
@@ -892,6 +928,18 @@ func genReuse(c *ctx, r *rand.Rand, hs []honestMsg, emit func(ev)) {
 			pairs = append(pairs, [2][]byte{encodeVal(m, roundTrip(ev{"v": ev{"key_id": 7, "elems": []any{}}})["v"]), vs[len(vs)-1]})
 		case "batchreq":
 			pairs = append(pairs, [2][]byte{encodeVal(m, roundTrip(ev{"v": []any{}})["v"]), vs[len(vs)-1]})
+		}
+		// ... and with value 1 a message of the kind whose list is framed ANOTHER way (a 16-bit or 8-bit length as older
+		// drafts had it, a non-minimal varint): accepted or not, nothing of it may shape what the object marshals later
+		if off, ok := map[string]int{"t5req": 3, "batchreq": 0}[m]; ok {
+			h := vs[0]
+			if l, w := quicwire.ConsumeVarint(h[off:]); w > 0 && int(l) <= len(h)-off-w && l < 65536 {
+				body, tail := h[off+w:off+w+int(l)], h[off+w+int(l):]
+				for _, pre := range [][]byte{{byte(l >> 8), byte(l)}, {0x80, 0, byte(l >> 8), byte(l)}, {0xc0, 0, 0, 0, 0, 0, byte(l >> 8), byte(l)}, {0, 0, byte(l >> 8), byte(l)}} {
+					alt := append(append(append(append([]byte{}, h[:off]...), pre...), body...), tail...)
+					pairs = append(pairs, [2][]byte{alt, vs[len(vs)-1]})
+				}
+			}
 		}
 		for pi, pr := range pairs {
 			v1, v2 := pr[0], pr[1]
